@@ -31,7 +31,7 @@ func runReleasePending(c *Ctx, sh *shared, dir string) {
 	}
 	defer e.teardown()
 	a, b := e.a, e.b
-	if err := startReady(a); err != nil || !waitPing(a.Sock, b.ID, 30*time.Second) {
+	if err := startReady(a); err != nil || !waitPing(a.Sock, b.ID, 90*time.Second) {
 		viol("harness-scenario", fmt.Sprintf("nodes do not come up: %v", err))
 		return
 	}
@@ -77,7 +77,7 @@ func runReleasePending(c *Ctx, sh *shared, dir string) {
 		sh.im.Hist("scenario:remote-release-pending")
 		sh.mu.Unlock()
 		switch {
-		case v.Latency > 5 || strings.Contains(v.Err, "timeout"):
+		case v.Latency > 20 || strings.Contains(v.Err, "timeout"):
 			viol("query-blocked:release-pending", fmt.Sprintf("a status query after restart %d took %.1f s (%s)", k, v.Latency, v.Err))
 			return
 		case !v.Listed:
